@@ -332,6 +332,10 @@ pub struct InRoute {
     pub originator: u8,
     /// entries: 0 = the local cluster id, 1 = the local router-id, 2.. = other identifiers
     pub clusters: Vec<u8>,
+    /// order of the attributes on the wire: 0 = by type code, otherwise a rotation / reversal with an
+    /// extended-communities attribute (type 16) mixed in (a receiver must take any order)
+    #[serde(default)]
+    pub order: u8,
 }
 
 #[derive(Clone, Debug, Serialize, Deserialize)]
@@ -419,7 +423,17 @@ async fn inbound(c: &InboundCase) -> CheckResult {
             ..Default::default()
         };
         let net = v4(10, 80 + r.prefix % 6, i as u8, 0, 24);
-        let msg = Message::Update(Update::Reach { family: Family::IPV4, entries: vec![bgp::PathNlri { path_id: 0, nlri: net.clone() }], nexthop: Some(Nexthop::V4(Ipv4Addr::new(192, 0, 2, 7))), attr: Arc::new(spec.build()) });
+        let mut attrs = spec.build();
+        if r.order % 4 != 0 {
+            attrs.push(packet::Attribute::new_with_bin(packet::Attribute::EXTENDED_COMMUNITY, vec![0x00, 0x02, 0xfd, 0xe8, 0, 0, 0, 9]).unwrap());
+            match r.order % 4 {
+                1 => attrs.reverse(),
+                2 => attrs.rotate_right(1),
+                _ => attrs.rotate_left(2),
+            }
+            info.classes.push("inbound/attributes-out-of-type-order");
+        }
+        let msg = Message::Update(Update::Reach { family: Family::IPV4, entries: vec![bgp::PathNlri { path_id: 0, nlri: net.clone() }], nexthop: Some(Nexthop::V4(Ipv4Addr::new(192, 0, 2, 7))), attr: Arc::new(attrs) });
         p.send_msg(&mut codec, &msg).await?;
         if p.is_closed() {
             return Err(Failure::new("harness", format!("the session was reset by route #{i} ({spec:?})")));
@@ -456,6 +470,6 @@ async fn inbound(c: &InboundCase) -> CheckResult {
 pub fn arb_inbound() -> impl Strategy<Value = InboundCase> {
     let asn = prop_oneof![3 => Just(IN_LOCAL_AS), 2 => Just(IN_CONFED_ID), 2 => Just(65010u32), 6 => 65100u32..65110, 1 => Just(4_200_000_000u32)];
     let seg = (prop_oneof![6 => Just(SEG_SEQ), 2 => Just(SEG_SET), 2 => Just(SEG_CONFED_SEQ), 1 => Just(SEG_CONFED_SET)], proptest::collection::vec(asn, 1..4));
-    let route = (0u8..6, proptest::collection::vec(seg, 1..4), prop_oneof![4 => Just(0u8), 2 => Just(1u8), 2 => Just(2u8)], proptest::collection::vec(0u8..6, 0..3)).prop_map(|(prefix, path, originator, clusters)| InRoute { prefix, path, originator, clusters });
+    let route = (0u8..6, proptest::collection::vec(seg, 1..4), prop_oneof![4 => Just(0u8), 2 => Just(1u8), 2 => Just(2u8)], proptest::collection::vec(0u8..6, 0..3), prop_oneof![2 => Just(0u8), 3 => 1u8..4]).prop_map(|(prefix, path, originator, clusters, order)| InRoute { prefix, path, originator, clusters, order });
     (0u8..5, any::<bool>(), any::<bool>(), proptest::collection::vec(route, 1..8)).prop_map(|(peer, confed, cluster, routes)| InboundCase { peer, confed, cluster, routes })
 }
